@@ -72,6 +72,10 @@ Proof. revert n m; induction l; intros [|n] [|m] H; simpl; auto; try congruence.
 Lemma nth_updn_none {A} (l : list A) n x : (length l <= n)%nat -> updn l n x = l.
 Proof. revert n; induction l; intros [|n] H; simpl in *; auto; try lia. f_equal; apply IHl; lia. Qed.
 
+Lemma updn_updn {A} (l : list A) n a b : updn (updn l n a) n b = updn l n b.
+Proof. revert n; induction l; intros [|n]; cbn; auto. f_equal; auto. Qed.
+Lemma setn_setn {A} (l : list A) i a b : setn (setn l i a) i b = setn l i b.
+Proof. unfold setn. destruct (i <? 0); auto. apply updn_updn. Qed.
 Lemma getn_setn_same {A} (l : list A) i x y : getn l i = Some y -> getn (setn l i x) i = Some x.
 Proof.
   unfold getn, setn; destruct (i <? 0) eqn:E; [discriminate|]. intros H.
@@ -242,7 +246,7 @@ Proof.
   - destruct (recal_loop_unauth (rss s) ch wf (le32 p (REQ_OFF_DATA + RSSET_OFF_OPEN)) (le32 p (REQ_OFF_DATA + RSSET_OFF_CLOSE))) as [m E].
     rewrite E. cbv zeta. rewrite with_rss_id, cal_outs_same. cbn [Z.ltb Z.compare app]. rewrite app_nil_r.
     destruct (filter_send_result s sender ch CMD_RECALIBRATE (recal_result (rss s) ch 0 RES_NOT_SUPPORTED)) as [F1 F2].
-    rewrite F1, F2, inert_refl, app_nil_r. eexists; split; [reflexivity|]. split.
+    rewrite F1, F2, inert_refl. eexists; split; [reflexivity|]. split.
     + destruct (existsb (rmatch ch) (rss s)) eqn:X; [left; apply recal_result_match; auto|right; apply recal_result_nomatch; auto].
     + intros _ X. apply recal_result_match; auto.
   - destruct (filter_send_result s sender ch CMD_RECALIBRATE RES_NOT_SUPPORTED) as [F1 F2].
@@ -251,3 +255,469 @@ Proof.
 Qed.
 
 End WithFacts.
+
+(* ------------------------------------------------------------------------------------------------ *)
+(* which server messages can change calibration data *)
+Lemma cfgmode_start_rss s s' o : cfgmode_start s = (s', o) -> rss s' = rss s.
+Proof.
+  unfold cfgmode_start. destruct (negb (entertime s =? 0)); intros H; inversion H; subst; reflexivity.
+Qed.
+
+Lemma calcfg_calib s p s' o :
+  calcfg s p = (s', o) -> calib_all s' <> calib_all s ->
+  s32 (le32 p REQ_OFF_COMMAND) = CMD_RECALIBRATE /\ nthz p REQ_OFF_AUTH <> 0 /\
+  existsb (rmatch (s32 (le32 p REQ_OFF_CHANNEL))) (rss s) = true.
+Proof.
+  unfold calcfg. intros H Hc.
+  destruct (s32 (le32 p REQ_OFF_COMMAND) =? CMD_ENTER_CFG_MODE) eqn:E1.
+  { destruct (nthz p REQ_OFF_AUTH =? 1).
+    - apply cfgmode_start_rss in H. exfalso. apply Hc. unfold calib_all. rewrite H. reflexivity.
+    - inversion H; subst. congruence. }
+  destruct ((s32 (le32 p REQ_OFF_COMMAND) =? CMD_RECALIBRATE) &&
+            ((s32 (le32 p REQ_OFF_DATATYPE) =? DATATYPE_RS_SETTINGS) && (le32 p REQ_OFF_DATASIZE =? RSSET_SIZE) || (s32 (le32 p REQ_OFF_DATATYPE) =? 0))) eqn:E2.
+  2:{ inversion H; subst. congruence. }
+  apply andb_true_iff in E2. destruct E2 as [E2 _]. apply Z.eqb_eq in E2.
+  set (ch := s32 (le32 p REQ_OFF_CHANNEL)) in *.
+  destruct (Z.eq_dec (nthz p REQ_OFF_AUTH) 0) as [A|A].
+  { exfalso. rewrite A in H.
+    match type of H with context [recal_loop ?l ?c 0 ?w ?a ?b] => destruct (recal_loop_unauth l c w a b) as [m E]; rewrite E in H end.
+    inversion H; subst. apply Hc. rewrite with_rss_id. reflexivity. }
+  destruct (existsb (rmatch ch) (rss s)) eqn:X; [auto|].
+  exfalso.
+  match type of H with context [recal_loop ?l ?c ?au ?w ?a ?b] => destruct (recal_loop_nomatch l c au w a b X) as (m & a' & n & E); rewrite E in H end.
+  inversion H; subst. apply Hc. rewrite with_rss_id. reflexivity.
+Qed.
+
+Definition known_class (s : st) (call : Z) (p : list Z) : Prop :=
+  (call = CALL_SET_VALUE /\ len p = NV_SIZE /\ find_rs (rss (pre_iter s)) (nthz p NV_OFF_CHANNEL) 0 <> None) \/
+  (call = CALL_GROUP_SET_VALUE /\ len p = GNV_SIZE /\ find_rs (rss (pre_iter s)) (nthz p GNV_OFF_CHANNEL) 0 <> None).
+
+Lemma set_value_calib s ch dur v : calib_all (fst (set_value s ch dur v)) <> calib_all s -> find_rs (rss s) ch 0 <> None.
+Proof. unfold set_value. destruct (find_rs (rss s) ch 0) as [[k r]|]; [congruence|]. cbn. congruence. Qed.
+
+Lemma calib_set_conn s a b : calib_all (set_conn s a b) = calib_all s.
+Proof. reflexivity. Qed.
+
+(* every server message that changes calibration data is an authorised recalibrate request for a shutter channel
+   that supports it, or a set-value message addressed to a shutter channel (the known finding) *)
+Lemma srv_touches_calibration_thm : forall s call p,
+  live s -> calib_all (fst (step s (Srv call p))) <> calib_all s ->
+  (call = CALL_CALCFG_REQUEST /\ calcfg_gate p = true /\ s32 (le32 p REQ_OFF_COMMAND) = CMD_RECALIBRATE /\ nthz p REQ_OFF_AUTH <> 0 /\
+     existsb (rmatch (s32 (le32 p REQ_OFF_CHANNEL))) (rss (pre_iter s)) = true)
+  \/ known_class s call p.
+Proof.
+  intros s call p L. rewrite (step_srv _ _ _ L). unfold srv. rewrite <- (calib_pre_iter s). unfold known_class.
+  set (s1 := pre_iter s). intros H.
+  destruct (negb (srpc_up s1)); [cbn in H; congruence|].
+  destruct (call =? CALL_REGISTER_RESULT) eqn:E1.
+  { destruct ((len p =? REGRES_SIZE) && (s32 (le32 p REGRES_OFF_CODE) =? RESULTCODE_TRUE_)); cbn [fst] in H; try rewrite calib_set_conn in H; congruence. }
+  destruct (call =? CALL_SET_VALUE) eqn:E2.
+  { apply Z.eqb_eq in E2. destruct (len p =? NV_SIZE) eqn:E; [|cbn in H; congruence].
+    apply Z.eqb_eq in E. right; left. repeat split; auto. apply set_value_calib in H; auto. }
+  destruct (call =? CALL_GROUP_SET_VALUE) eqn:E3.
+  { apply Z.eqb_eq in E3. destruct (len p =? GNV_SIZE) eqn:E; [|cbn in H; congruence].
+    apply Z.eqb_eq in E. right; right. repeat split; auto. apply set_value_calib in H; auto. }
+  destruct (call =? CALL_CALCFG_REQUEST) eqn:E4; [|cbn in H; congruence].
+  apply Z.eqb_eq in E4. destruct (calcfg_gate p) eqn:G; [|cbn in H; congruence].
+  destruct (calcfg s1 p) as [s' o] eqn:C. cbn [fst] in H.
+  destruct (calcfg_calib _ _ _ _ C H) as (A & B & D). left. auto.
+Qed.
+
+(* ------------------------------------------------------------------------------------------------ *)
+(* where EnterCfg / Factory outputs can come from, one handler at a time *)
+Definition no_enter (o : list out) : Prop := forall t, ~ In (EnterCfg t) o.
+Definition no_factory (o : list out) : Prop := ~ In Factory o.
+
+Lemma cfgmode_start_out s s' o :
+  cfgmode_start s = (s', o) ->
+  (o = [] /\ s' = s) \/ (o = [EnterCfg (now s)] /\ entertime s = 0 /\ inputs s' = inputs s /\ now s' = now s /\ boot32 s' = boot32 s /\
+                          halted s' = halted s /\ booted s' = booted s /\ silent s' = silent s).
+Proof.
+  unfold cfgmode_start. destruct (entertime s =? 0) eqn:E; cbn [negb]; intros H; inversion H; subst; [right|left; auto].
+  apply Z.eqb_eq in E. repeat split; auto.
+Qed.
+Lemma input_start_cfg_out s s' o :
+  input_start_cfg s = (s', o) ->
+  (o = [] /\ s' = s) \/ (o = [EnterCfg (now s)] /\ cfgmode s = false /\ inputs s' = inputs s /\ now s' = now s /\ boot32 s' = boot32 s /\
+                          halted s' = halted s /\ booted s' = booted s /\ silent s' = silent s).
+Proof.
+  unfold input_start_cfg. destruct (cfgmode s) eqn:E; intros H; [inversion H; auto|].
+  destruct (cfgmode_start_out _ _ _ H) as [[A B]|(A & B & C)].
+  - exfalso. unfold cfgmode in E. unfold cfgmode_start in H. cbn [entertime devconn_stop] in H. rewrite E in H. subst o. inversion H.
+  - right. cbn in *. intuition.
+Qed.
+Lemma restart_out s x s' o : restart s x = (s', o) -> halted s' = true /\ no_enter o /\ no_factory o.
+Proof.
+  unfold restart. intros H; inversion H; subst. split; [reflexivity|]. split; [intros t [C|[]]; discriminate|intros [C|[]]; discriminate].
+Qed.
+
+Definition same_globals (s s' : st) : Prop :=
+  now s' = now s /\ boot32 s' = boot32 s /\ booted s' = booted s /\ halted s' = halted s /\ silent s' = silent s.
+Definition upd_result (s : st) (i : Z) (s' : st) (x' : input) : Prop :=
+  inputs s' = setn (inputs s) i x' /\ same_globals s s'.
+Lemma same_globals_refl s : same_globals s s. Proof. repeat split. Qed.
+Lemma upd_set_input s i x : upd_result s i (set_input s i x) x.
+Proof. split; [reflexivity|repeat split]. Qed.
+
+Lemma input_start_cfg_upd s i x s' o :
+  input_start_cfg (set_input s i x) = (s', o) ->
+  upd_result s i s' x /\ (o = [] \/ (o = [EnterCfg (now s)] /\ cfgmode s = false)).
+Proof.
+  intros H. destruct (input_start_cfg_out _ _ _ H) as [[A B]|(A & B & C & D & E & F & G & I)].
+  - subst. split; [apply upd_set_input|auto].
+  - split; [|right; auto]. split; [exact C|]. cbn in *. repeat split; auto.
+Qed.
+
+Lemma legacy_tail_spec s i x stt s' o :
+  i_armed x = false -> legacy_tail s i x stt = (s', o) ->
+  halted s' = true \/
+  (exists x', upd_result s i s' x' /\ i_last x' = i_last x /\ i_cnt x' = i_cnt x /\
+      (i_armed x' = true -> stt = STATE_ACTIVE /\ i_lsc x' = now32 s /\ i_adv x' = false) /\ o = []).
+Proof.
+  intros Ha. unfold legacy_tail. destruct (stt =? STATE_ACTIVE) eqn:E.
+  - intros H; inversion H; subst. right. eexists; split; [apply upd_set_input|]. cbn. apply Z.eqb_eq in E. intuition.
+  - destruct (cfgbtn_enabled s x && (0 <? i_cnt x) && (3000000 <? u32 (now32 s - entertime s)) && can_exit s x).
+    + intros H. apply restart_out in H. left; tauto.
+    + intros H; inversion H; subst. right. exists x; split; [apply upd_set_input|]. rewrite Ha. intuition discriminate.
+Qed.
+
+Lemma legacy_count_bound s x stt : -128 <= i_cnt x <= 127 ->
+  -128 <= legacy_count s x stt <= 127 /\ legacy_count s x stt <= Z.max 1 (i_cnt x + 1).
+Proof.
+  intros H. unfold legacy_count. destruct (2000000 <=? u32 (now32 s - i_lsc x)); [lia|].
+  destruct (counted_legacy x stt); [|lia].
+  pose proof (s8_range (i_cnt x + 1)). pose proof (s8_le (i_cnt x + 1) ltac:(lia)). lia.
+Qed.
+
+(* result of the legacy state-change handler *)
+Lemma legacy_change_spec (CF : consts_facts) s i x stt s' o :
+  i_armed x = false -> -128 <= i_cnt x <= 127 -> legacy_change s i x stt = (s', o) ->
+  halted s' = true \/
+  (exists x', upd_result s i s' x' /\ i_last x' = i_last x /\ -128 <= i_cnt x' <= 127 /\ i_cnt x' <= Z.max 1 (i_cnt x + 1) /\
+      (i_armed x' = true -> stt = STATE_ACTIVE /\ i_lsc x' = now32 s /\ i_adv x' = false) /\
+      (o = [] \/ (o = [EnterCfg (now s)] /\ cfgmode s = false /\ toggle_enabled x = true /\ PRESS_COUNT <= Z.max 1 (i_cnt x + 1)))).
+Proof.
+  intros Ha Hc. unfold legacy_change. pose proof (cf_count CF) as HC.
+  assert (TAIL : forall y, i_armed y = false -> i_last y = i_last x -> -128 <= i_cnt y <= 127 -> i_cnt y <= Z.max 1 (i_cnt x + 1) ->
+            legacy_tail s i y stt = (s', o) ->
+            halted s' = true \/
+            (exists x', upd_result s i s' x' /\ i_last x' = i_last x /\ -128 <= i_cnt x' <= 127 /\ i_cnt x' <= Z.max 1 (i_cnt x + 1) /\
+               (i_armed x' = true -> stt = STATE_ACTIVE /\ i_lsc x' = now32 s /\ i_adv x' = false) /\
+               (o = [] \/ (o = [EnterCfg (now s)] /\ cfgmode s = false /\ toggle_enabled x = true /\ PRESS_COUNT <= Z.max 1 (i_cnt x + 1))))).
+  { intros y Y1 Y2 Y3 Y4 H. destruct (legacy_tail_spec _ _ _ _ _ _ Y1 H) as [A|(x' & U & L1 & L2 & L3 & L4)]; [left; auto|].
+    right. exists x'. rewrite L1, L2. intuition. }
+  destruct (cfgbtn_enabled s x).
+  2:{ apply TAIL; auto; lia. }
+  destruct (negb (cfgmode s)) eqn:EC.
+  - destruct (legacy_count_bound s x stt Hc) as [B1 B2].
+    destruct (toggle_enabled x && (PRESS_COUNT <=? legacy_count s x stt)) eqn:ET.
+    + intros H. apply input_start_cfg_upd in H. destruct H as [U Ho]. right. eexists; split; [exact U|]. cbn.
+      apply andb_true_iff in ET. destruct ET as [T1 T2]. apply Z.leb_le in T2. apply negb_true_iff in EC.
+      repeat split; try lia; try discriminate.
+      destruct Ho as [Ho|[Ho _]]; [left; auto|right]. repeat split; auto. lia.
+    + apply TAIL; cbn; auto.
+  - destruct (counted_legacy x stt).
+    + destruct (negb (hold_enabled x) && (3000000 <? u32 (now32 s - entertime s)) && can_exit s x).
+      * intros H. apply restart_out in H. left; tauto.
+      * apply TAIL; cbn; auto; lia.
+    + apply TAIL; auto; lia.
+Qed.
+
+(* result of the advanced state-change handler *)
+Lemma advanced_change_spec (CF : consts_facts) s i x stt s' o :
+  -128 <= i_cnt x <= 127 -> getn (inputs s) i <> None -> advanced_change s i x stt = (s', o) ->
+  exists x', upd_result s i s' x' /\ i_last x' = i_last x /\ -128 <= i_cnt x' <= 127 /\ i_cnt x' <= Z.max 1 (i_cnt x + 1) /\
+      i_armed x' = true /\ i_lsc x' = now32 s /\ i_adv x' = true /\
+      (o = [] \/ (o = [EnterCfg (now s)] /\ cfgmode s = false /\ toggle_enabled x = true /\ PRESS_COUNT <= Z.max 1 (i_cnt x + 1))).
+Proof.
+  intros Hc Hin. unfold advanced_change. pose proof (cf_count CF) as HC.
+  pose proof (s8_range (i_cnt x + 1)). pose proof (s8_le (i_cnt x + 1) ltac:(lia)).
+  destruct (negb (i_cnt x =? -1) && ((stt =? STATE_ACTIVE) || toggles x)).
+  - destruct (toggle_enabled x && (PRESS_COUNT <=? s8 (i_cnt x + 1))) eqn:ET.
+    + destruct (input_start_cfg (set_input s i (upd_in x (i_last x) 0 (i_lsc x) false true))) as [s1 o1] eqn:E.
+      apply input_start_cfg_upd in E. destruct E as [[U1 U2] Ho].
+      assert (G : getn (inputs s1) i = Some (upd_in x (i_last x) 0 (i_lsc x) false true)).
+      { rewrite U1. destruct (getn (inputs s) i) eqn:G0; [|congruence]. eapply getn_setn_same; eauto. }
+      rewrite G. intros HH; inversion HH; subst. eexists. split.
+      { split.
+        - cbn [inputs set_input with_inputs]. rewrite U1. apply setn_setn.
+        - destruct U2 as (A & B & C & D & E). repeat split; cbn; auto. }
+      cbn. apply andb_true_iff in ET. destruct ET as [T1 T2]. apply Z.leb_le in T2.
+      repeat split; try lia. destruct Ho as [Ho|[Ho Hm]]; [left; auto|right]. repeat split; auto. lia.
+    + intros HH; inversion HH; subst. eexists; split; [apply upd_set_input|]. cbn. repeat split; auto; lia.
+  - intros HH; inversion HH; subst. eexists; split; [apply upd_set_input|]. cbn. repeat split; auto; lia.
+Qed.
+
+Lemma factory_reset_out s s' o : factory_reset s = (s', o) -> halted s' = true /\ no_enter o.
+Proof.
+  unfold factory_reset. destruct (restart (set_blank s 15) 500000) as [s2 o2] eqn:E. intros H; inversion H; subst.
+  apply restart_out in E. destruct E as (A & B & C). split; auto.
+  intros t [X|[X|X]]; try discriminate. apply (B t X).
+Qed.
+
+Lemma legacy_tick_spec s i x s' o :
+  legacy_tick s i x = (s', o) ->
+  (s' = s /\ o = []) \/
+  ((i_last x = STATE_ACTIVE /\ hold_enabled x = true /\ PRESS_TIME_MS * 1000 <= u32 (now32 s - i_lsc x)) /\
+   ((exists x', upd_result s i s' x' /\ i_last x' = i_last x /\ i_cnt x' = 0 /\ i_armed x' = false /\
+        (o = [] \/ (o = [EnterCfg (now s)] /\ cfgmode s = false)))
+    \/ (halted s' = true /\ cfgmode s = true /\ band (i_flags x) FLAG_FACTORY_RESET = true /\ no_enter o))).
+Proof.
+  unfold legacy_tick.
+  destruct ((i_last x =? STATE_ACTIVE) && hold_enabled x && (PRESS_TIME_MS * 1000 <=? u32 (now32 s - i_lsc x))) eqn:E.
+  2:{ intros H; inversion H; auto. }
+  apply andb_true_iff in E. destruct E as [E E3]. apply andb_true_iff in E. destruct E as [E1 E2].
+  apply Z.eqb_eq in E1. apply Z.leb_le in E3. intros H. right. split; [auto|].
+  destruct (negb (cfgmode s)) eqn:EC.
+  - apply input_start_cfg_upd in H. destruct H as [U Ho]. left. eexists; split; [exact U|]. cbn. repeat split; auto.
+  - apply negb_false_iff in EC. destruct (band (i_flags x) FLAG_FACTORY_RESET) eqn:EF.
+    + apply factory_reset_out in H. right. tauto.
+    + inversion H; subst. left. eexists; split; [apply upd_set_input|]. cbn. auto.
+Qed.
+
+Lemma advanced_tick_spec s i x s' o :
+  -128 <= i_cnt x <= 127 ->
+  advanced_tick s i x = (s', o) ->
+  exists x', upd_result s i s' x' /\ i_last x' = i_last x /\ i_lsc x' = i_lsc x /\ i_adv x' = i_adv x /\
+     (i_armed x' = true -> i_armed x = true) /\ -128 <= i_cnt x' <= 127 /\ i_cnt x' <= Z.max (i_cnt x) 0 /\
+     (o = [] \/ (o = [EnterCfg (now s)] /\ cfgmode s = false /\ i_last x = STATE_ACTIVE /\ hold_enabled x = true /\
+                 PRESS_TIME_MS * 1000 <= u32 (now32 s - i_lsc x))).
+Proof.
+  intros Hc. unfold advanced_tick. cbv zeta.
+  set (delta := u32 (now32 s - i_lsc x)).
+  (* phase 1 *)
+  match goal with |- (match ?T with (_, _) => _ end = _) -> _ => set (TT := T) end.
+  assert (P1 : exists s1 x1 o1, TT = (s1, x1, o1) /\
+     (s1 = s \/ upd_result s i s1 (upd_in x (i_last x) 0 (i_lsc x) false (i_adv x))) /\
+     same_globals s s1 /\
+     i_last x1 = i_last x /\ i_lsc x1 = i_lsc x /\ i_adv x1 = i_adv x /\ i_type x1 = i_type x /\ i_maxc x1 = i_maxc x /\
+     (i_armed x1 = true -> i_armed x = true) /\ -128 <= i_cnt x1 <= 127 /\ i_cnt x1 <= Z.max (i_cnt x) 0 /\
+     (o1 = [] \/ (o1 = [EnterCfg (now s)] /\ cfgmode s = false /\ i_last x = STATE_ACTIVE /\ hold_enabled x = true /\
+                  PRESS_TIME_MS * 1000 <= delta))).
+  { unfold TT. clear TT.
+destruct ((i_type x =? TYPE_MONOSTABLE) && (i_last x =? STATE_ACTIVE) && negb (i_cnt x =? -1)) eqn:E0.
+    2:{ exists s, x, []. repeat split; auto; try lia. }
+    apply andb_true_iff in E0. destruct E0 as [E0 _]. apply andb_true_iff in E0. destruct E0 as [_ EA]. apply Z.eqb_eq in EA.
+    destruct (hold_enabled x && (PRESS_TIME_MS * 1000 <=? delta)) eqn:E1.
+    - apply andb_true_iff in E1. destruct E1 as [EH EP]. apply Z.leb_le in EP.
+      destruct (input_start_cfg (set_input s i (upd_in x (i_last x) 0 (i_lsc x) false (i_adv x)))) as [s1 o1] eqn:E2.
+      apply input_start_cfg_upd in E2. destruct E2 as [U Ho]. cbn [i_cnt upd_in Z.eqb andb].
+      exists s1. eexists. exists o1. split; [reflexivity|]. destruct U as [U1 U2]. cbn.
+      repeat split; auto; try lia; try (right; split; auto; fail); try discriminate; try apply U2.
+      destruct Ho as [Ho|[Ho Hm]]; [left; auto|right; repeat split; auto].
+    - destruct ((i_cnt x =? 1) && (HOLD_TIME_MS * 1000 <=? delta)) eqn:E2.
+      + exists s. eexists. exists []. split; [reflexivity|]. cbn. repeat split; auto; try lia.
+        destruct (hold_enabled x); auto; discriminate.
+      + exists s, x, []. repeat split; auto; try lia. }
+  destruct P1 as (s1 & x1 & o1 & EQ & HS & HG & L1 & L2 & L3 & L4 & L5 & L6 & L7 & L8 & L9).
+  rewrite EQ. clear EQ.
+  (* phase 2 *)
+  set (x2 := if (i_last x1 =? STATE_INACTIVE) || toggles x1
+             then if MULTICLICK_TIME_MS * 1000 <=? delta then upd_in x1 (i_last x1) 0 (i_lsc x1) false (i_adv x1)
+                  else if i_maxc x1 <=? i_cnt x1
+                       then if i_maxc x1 <=? 1 then upd_in x1 (i_last x1) 0 (i_lsc x1) false (i_adv x1)
+                            else upd_in x1 (i_last x1) (-1) (i_lsc x1) (i_armed x1) (i_adv x1)
+                       else x1
+             else x1).
+  intros H; inversion H; subst s' o. exists x2.
+  assert (X2 : i_last x2 = i_last x1 /\ i_lsc x2 = i_lsc x1 /\ i_adv x2 = i_adv x1 /\ (i_armed x2 = true -> i_armed x1 = true) /\
+               -128 <= i_cnt x2 <= 127 /\ i_cnt x2 <= Z.max (i_cnt x1) 0).
+  { unfold x2. destruct ((i_last x1 =? STATE_INACTIVE) || toggles x1); [|repeat split; auto; lia].
+    destruct (MULTICLICK_TIME_MS * 1000 <=? delta); [cbn; repeat split; auto; try lia; discriminate|].
+    destruct (i_maxc x1 <=? i_cnt x1); [|repeat split; auto; lia].
+    destruct (i_maxc x1 <=? 1); cbn; repeat split; auto; try lia; discriminate. }
+  destruct X2 as (M1 & M2 & M3 & M4 & M5 & M6).
+  split.
+  { destruct HS as [HS|[U1 U2]].
+    - subst s1. apply upd_set_input.
+    - split; [cbn [inputs set_input with_inputs]; rewrite U1; apply setn_setn|].
+      destruct HG as (A & B & C & D & E). repeat split; cbn; auto. }
+  repeat split; try congruence; try lia; auto.
+Qed.
+
+(* ------------------------------------------------------------------------------------------------ *)
+(* event history (specification side) *)
+Definition ev_ok (e : ev) : Prop := match e with Time dt => 0 <= dt | _ => True end.
+
+Lemma hist_snoc i pre e : hist i (pre ++ [e]) = hstep i (hist i pre) e.
+Proof. unfold hist. rewrite fold_left_app. reflexivity. Qed.
+Lemma clock_snoc pre e : clock (pre ++ [e]) = match e with Time dt => clock pre + dt | _ => clock pre end.
+Proof. unfold clock. rewrite fold_left_app. reflexivity. Qed.
+Lemma hist_facts i pre : Forall ev_ok pre ->
+  h_now (hist i pre) = clock pre /\ 0 <= h_n (hist i pre) /\ h_t (hist i pre) <= clock pre.
+Proof.
+  induction pre as [|e pre IH] using rev_ind; intros H.
+  - cbn. lia.
+  - apply Forall_app in H. destruct H as [H1 H2]. inversion H2; subst. specialize (IH H1). destruct IH as (A & B & C).
+    rewrite hist_snoc, clock_snoc. destruct e; cbn [hstep h_now h_n h_t]; auto.
+    + destruct ((i0 =? i) && negb (stt =? h_phys (hist i pre))); cbn; lia.
+    + cbn in H3. lia.
+Qed.
+
+Lemma u32_diff b a c : u32 (u32 (b + a) - u32 (b + c)) = u32 (a - c).
+Proof. rewrite u32_sub_l, u32_sub_r. f_equal. lia. Qed.
+Lemma u32_le z : 0 <= z -> u32 z <= z.
+Proof. intros. unfold u32. apply Z.mod_le; lia. Qed.
+
+(* ------------------------------------------------------------------------------------------------ *)
+(* invariant linking the input records to the history *)
+Definition linv (s : st) (x : input) (h : hrec) : Prop :=
+  i_last x = h_phys h /\ -128 <= i_cnt x <= 127 /\ i_cnt x <= h_n h /\
+  (i_armed x = true -> silent s = false /\ i_lsc x = u32 (boot32 s + h_t h) /\ h_st h = i_last x /\
+                       (i_adv x = false -> i_last x = STATE_ACTIVE) /\ 0 < h_n h).
+Record inv (s : st) (pre : list ev) : Prop := {
+  inv_now : now s = clock pre;
+  inv_in : forall i x, getn (inputs s) i = Some x -> linv s x (hist i pre) }.
+
+Lemma linv_frame s s' x h :
+  boot32 s' = boot32 s -> (silent s' = silent s \/ silent s' = false) -> linv s x h -> linv s' x h.
+Proof.
+  intros B S (A1 & A2 & A3 & A4). split; [auto|]. split; [lia|]. split; [lia|].
+  intros Ha. destruct (A4 Ha) as (C1 & C2 & C3 & C4 & C5). split; [destruct S; congruence|]. split; [congruence|]. auto.
+Qed.
+
+Definition held (pre : list ev) (i : Z) (x : input) : Prop :=
+  hold_enabled x = true /\ h_st (hist i pre) = STATE_ACTIVE /\ 0 < h_n (hist i pre) /\
+  PRESS_TIME_MS * 1000 <= clock pre - h_t (hist i pre).
+Definition cause_enter (s : st) (pre : list ev) (e : ev) : Prop :=
+  (exists i x, e = Tick i /\ getn (inputs s) i = Some x /\ cfgmode s = false /\ held pre i x)
+  \/ (exists i stt x, e = Notify i stt /\ getn (inputs s) i = Some x /\ cfgmode s = false /\ toggle_enabled x = true /\
+        stt <> h_phys (hist i pre) /\ PRESS_COUNT <= h_n (hist i (pre ++ [e])))
+  \/ (exists p, e = Srv CALL_CALCFG_REQUEST p /\ calcfg_gate p = true /\
+        s32 (le32 p REQ_OFF_COMMAND) = CMD_ENTER_CFG_MODE /\ nthz p REQ_OFF_AUTH = 1).
+Definition cause_factory (s : st) (pre : list ev) (e : ev) : Prop :=
+  exists i x, e = Tick i /\ getn (inputs s) i = Some x /\ cfgmode s = true /\
+              band (i_flags x) FLAG_FACTORY_RESET = true /\ band (i_flags x) FLAG_CFG_BTN = true /\ held pre i x.
+
+Lemma held_from_linv s pre i x :
+  Forall ev_ok pre -> inv s pre -> getn (inputs s) i = Some x -> i_armed x = true ->
+  i_last x = STATE_ACTIVE -> hold_enabled x = true -> PRESS_TIME_MS * 1000 <= u32 (now32 s - i_lsc x) -> held pre i x.
+Proof.
+  intros Hok [In Ii] G Ha Hl Hh Hp. destruct (Ii i x G) as (A1 & A2 & A3 & A4). destruct (A4 Ha) as (C1 & C2 & C3 & C4 & C5).
+  destruct (hist_facts i pre Hok) as (F1 & F2 & F3).
+  repeat split; auto; try congruence.
+  unfold now32 in Hp. rewrite C2, u32_diff in Hp. rewrite In in Hp.
+  pose proof (u32_le (clock pre - h_t (hist i pre)) ltac:(lia)). lia.
+Qed.
+
+Lemma inv_same_inputs s s' pre e :
+  inv s pre -> inputs s' = inputs s -> now s' = now s -> boot32 s' = boot32 s -> silent s' = silent s ->
+  (forall i, hist i (pre ++ [e]) = hist i pre) -> clock (pre ++ [e]) = clock pre -> inv s' (pre ++ [e]).
+Proof.
+  intros [In Ii] A B C D H K. split; [congruence|]. intros i x G. rewrite H. rewrite A in G.
+  apply (linv_frame s); auto.
+Qed.
+
+Lemma hold_flag x : hold_enabled x = true -> band (i_flags x) FLAG_CFG_BTN = true.
+Proof. unfold hold_enabled. intros H. apply andb_true_iff in H. destruct H as [H _]. apply andb_true_iff in H. tauto. Qed.
+
+Lemma inv_step_input s s' pre e i :
+  inv s pre -> now s' = now s -> boot32 s' = boot32 s -> (silent s' = silent s \/ silent s' = false) ->
+  clock (pre ++ [e]) = clock pre ->
+  (forall j, j <> i -> hist j (pre ++ [e]) = hist j pre) ->
+  (forall j y, j <> i -> getn (inputs s') j = Some y -> getn (inputs s) j = Some y) ->
+  (forall x', getn (inputs s') i = Some x' -> linv s' x' (hist i (pre ++ [e]))) ->
+  inv s' (pre ++ [e]).
+Proof.
+  intros [In Ii] A B C K H1 H2 H3. split; [congruence|]. intros j y G.
+  destruct (Z.eq_dec j i) as [->|N]; [auto|]. rewrite (H1 j N). apply (linv_frame s); auto.
+Qed.
+
+Lemma upd_result_other s i s' x' j y : upd_result s i s' x' -> j <> i -> getn (inputs s') j = Some y -> getn (inputs s) j = Some y.
+Proof. intros [U _] N G. rewrite U in G. rewrite getn_setn_other in G; auto. Qed.
+Lemma upd_result_same s i s' x' x0 y : upd_result s i s' x' -> getn (inputs s) i = Some x0 -> getn (inputs s') i = Some y -> y = x'.
+Proof. intros [U _] G0 G. rewrite U in G. rewrite (getn_setn_same _ _ _ _ G0) in G. congruence. Qed.
+
+Lemma hist_notify_other i j stt pre : j <> i -> hist j (pre ++ [Notify i stt]) = hist j pre.
+Proof. intros N. rewrite hist_snoc. cbn [hstep]. destruct (i =? j) eqn:E; [apply Z.eqb_eq in E; congruence|reflexivity]. Qed.
+Lemma hist_notify_same i stt pre :
+  hist i (pre ++ [Notify i stt]) =
+    if negb (stt =? h_phys (hist i pre))
+    then {| h_now := h_now (hist i pre); h_phys := stt; h_n := h_n (hist i pre) + 1; h_t := h_now (hist i pre); h_st := stt |}
+    else hist i pre.
+Proof. rewrite hist_snoc. cbn [hstep]. rewrite Z.eqb_refl. reflexivity. Qed.
+
+Lemma notify_inv_cause (CF : consts_facts) s pre i stt s' o :
+  Forall ev_ok pre -> inv s pre -> halted s = false -> notify s i stt = (s', o) ->
+  (halted s' = false -> inv s' (pre ++ [Notify i stt])) /\
+  (forall t, In (EnterCfg t) o -> cause_enter s pre (Notify i stt)) /\ no_factory o /\ booted s' = booted s.
+Proof.
+  intros Hok I Hh. pose proof I as [In Ii]. unfold notify.
+  assert (CK : clock (pre ++ [Notify i stt]) = clock pre) by (rewrite clock_snoc; reflexivity).
+  destruct (hist_facts i pre Hok) as (F1 & F2 & F3).
+  destruct (getn (inputs s) i) as [x|] eqn:G.
+  2:{ intros H; inversion H; subst. split; [|split; [intros t []|split; [intros []|reflexivity]]]. intros _.
+      apply (inv_step_input s' s' pre _ i); auto.
+      - intros j N. apply hist_notify_other; auto.
+      - intros x' G'. congruence. }
+  destruct (Ii i x G) as (A1 & A2 & A3 & A4).
+  destruct (silent s && (u32 (now32 s - u32 (boot32 s)) <? SILENT_MS * 1000)) eqn:ES.
+  { (* silent start-up period: only the state is recorded *)
+    apply andb_true_iff in ES. destruct ES as [ES _].
+    intros H; inversion H; subst. split; [|split; [intros t []|split; [intros []|reflexivity]]]. intros _.
+    apply (inv_step_input s _ pre _ i); auto.
+    - intros j N. apply hist_notify_other; auto.
+    - intros j y N G'. cbn in G'. rewrite getn_setn_other in G'; auto.
+    - intros x' G'. cbn [inputs set_input with_inputs] in G'. rewrite (getn_setn_same _ _ _ _ G) in G'. inversion G'; subst x'. clear G'.
+      assert (Hna : i_armed x = false).
+      { destruct (i_armed x) eqn:Ea; auto. destruct (A4 eq_refl) as (C1 & _). congruence. }
+      rewrite hist_notify_same. unfold linv. cbn [i_last i_cnt i_armed upd_in]. rewrite Hna.
+      destruct (stt =? h_phys (hist i pre)) eqn:E; cbn [negb h_phys h_n].
+      + apply Z.eqb_eq in E. repeat split; auto; try lia; discriminate.
+      + repeat split; auto; try lia; discriminate. }
+  (* normal processing *)
+  set (s0 := set_silent s false).
+  destruct (i_last x =? stt) eqn:EL.
+  { apply Z.eqb_eq in EL. intros H; inversion H; subst s' o. split; [|split; [intros t []|split; [intros []|reflexivity]]]. intros _.
+    apply (inv_step_input s s0 pre _ i); auto.
+    - intros j N. apply hist_notify_other; auto.
+    - intros x' G'. cbn in G'. rewrite G in G'. inversion G'; subst x'.
+      rewrite hist_notify_same. assert (E : (stt =? h_phys (hist i pre)) = true) by (apply Z.eqb_eq; congruence). rewrite E. cbn [negb].
+      apply (linv_frame s); auto. unfold linv; auto. }
+  apply Z.eqb_neq in EL.
+  assert (NP : stt <> h_phys (hist i pre)) by congruence.
+  assert (HS : hist i (pre ++ [Notify i stt]) =
+               {| h_now := h_now (hist i pre); h_phys := stt; h_n := h_n (hist i pre) + 1; h_t := h_now (hist i pre); h_st := stt |}).
+  { rewrite hist_notify_same. apply Z.eqb_neq in NP. rewrite NP. reflexivity. }
+  set (x1 := upd_in x stt (i_cnt x) (i_lsc x) false (advanced s0 x)).
+  assert (G0 : getn (inputs s0) i = Some x) by exact G.
+  (* common finish for both handlers *)
+  assert (FIN : forall x', upd_result s0 i s' x' -> i_last x' = stt -> -128 <= i_cnt x' <= 127 -> i_cnt x' <= Z.max 1 (i_cnt x + 1) ->
+                  (i_armed x' = true -> i_lsc x' = now32 s0 /\ (i_adv x' = false -> stt = STATE_ACTIVE)) ->
+                  inv s' (pre ++ [Notify i stt])).
+  { intros x' U L1 L2 L3 L4. pose proof U as [U1 (U2 & U3 & U4 & U5 & U6)].
+    apply (inv_step_input s s' pre _ i); auto.
+    - intros j N. apply hist_notify_other; auto.
+    - intros j y N G'. apply (upd_result_other s0 i s' x' j y U N G').
+    - intros y G'. rewrite (upd_result_same _ _ _ _ _ _ U G0 G'). rewrite HS. unfold linv. cbn [h_phys h_n h_t h_st].
+      split; [auto|]. split; [lia|]. split; [lia|]. intros Ha. destruct (L4 Ha) as [M1 M2].
+      split; [rewrite U6; reflexivity|]. split.
+      { rewrite M1. unfold now32. cbn [boot32 now s0 set_silent]. rewrite U3. cbn [boot32 s0 set_silent]. rewrite F1, In. reflexivity. }
+      split; [auto|]. split; [intros Hv; rewrite L1; auto|lia]. }
+  assert (CAUSE : cfgmode s0 = false -> toggle_enabled x1 = true -> PRESS_COUNT <= Z.max 1 (i_cnt x1 + 1) -> cause_enter s pre (Notify i stt)).
+  { intros C1 C2 C3. right; left. exists i, stt, x. repeat split; auto. rewrite HS. cbn [h_n]. cbn in C3. lia. }
+  destruct (advanced s0 x) eqn:EA.
+  - intros H. destruct (advanced_change_spec CF s0 i x1 stt s' o) as (x' & U & L1 & L2 & L3 & L4 & L5 & L6 & L7); auto; try congruence.
+    split; [intros _; apply (FIN x' U); auto; intros _; split; [auto|congruence]|].
+    split; [|split; [|destruct U as [_ (_ & _ & U4 & _)]; exact U4]].
+    + intros t Ht. destruct L7 as [L7|(L7 & M1 & M2 & M3)]; subst o; [destruct Ht|]. apply CAUSE; auto.
+    + intros Hf. destruct L7 as [L7|(L7 & _)]; subst o; [destruct Hf|destruct Hf as [Hf|[]]; discriminate].
+  - intros H. destruct (legacy_change_spec CF s0 i x1 stt s' o) as [Hhalt|(x' & U & L1 & L2 & L3 & L4 & L5)]; auto.
+    { unfold legacy_change in H.
+      (* halted: nothing to maintain, and restart produces no EnterCfg/Factory; re-derive from the definition *)
+      split; [congruence|].
+      assert (NE : no_enter o /\ no_factory o /\ booted s' = booted s).
+      { clear FIN CAUSE. unfold legacy_tail in H.
+        repeat match type of H with
+        | context [if ?c then _ else _] => destruct c
+        end;
+        try (match type of H with restart ?a ?b = _ => unfold restart in H; inversion H; subst;
+               split; [intros t [X|[]]; discriminate|split; [intros [X|[]]; discriminate|reflexivity]] end);
+        try (inversion H; subst; cbn in Hhalt; congruence);
+        try (apply input_start_cfg_out in H; destruct H as [[? ?]|(? & ? & ? & ? & ? & ? & ? & ?)]; subst; cbn in *; congruence). }
+      destruct NE as (N1 & N2 & N3). split; [intros t Ht; destruct (N1 t Ht)|auto]. }
+    split; [intros _; apply (FIN x' U); auto; intros Ha; destruct (L4 Ha) as (M1 & M2 & M3); auto|].
+    split; [|split; [|destruct U as [_ (_ & _ & U4 & _)]; exact U4]].
+    + intros t Ht. destruct L5 as [L5|(L5 & M1 & M2 & M3)]; subst o; [destruct Ht|]. apply CAUSE; auto.
+    + intros Hf. destruct L5 as [L5|(L5 & _)]; subst o; [destruct Hf|destruct Hf as [Hf|[]]; discriminate].
+Qed.
